@@ -22,6 +22,8 @@ from .fold import Abstract, FoldKeyError, Folder, Sym, Unfoldable
 
 
 CHECK_ASSERTS: List[bool] = []  # non-empty while a rule wants `assert` statements evaluated (see checking_asserts)
+EVAL_MESSAGES: List[bool] = []  # non-empty while the arguments of `raise K(<message>)` are evaluated too (concrete worlds): an
+# exception met while the message is being built is what the program raises instead of K
 
 
 class checking_asserts:
@@ -353,6 +355,12 @@ class Evaluator(Folder):
                             r0.exc = v  # type: ignore
                             raise r0
                         raise Unfoldable("raise of %r" % (v,))
+                    if isinstance(st.exc, ast.Call) and EVAL_MESSAGES:
+                        for a_ in st.exc.args:
+                            try:
+                                self.fold(a_)
+                            except Unfoldable:
+                                pass  # the text of the message is not known; the exception is raised all the same
                     if isinstance(st.exc, ast.Call):
                         kw = {}
                         for k in st.exc.keywords:
